@@ -119,12 +119,56 @@ def run(ctx):
         if isinstance(n, ast.DictComp) and "user_pf_options" in ast.unparse(n) and "not in passed_parameters" in ast.unparse(n):
             ok = True
     ctx.ob(R3, f"{AUX}::_init_runpp_options::overrule", ok, "stored options are filtered by 'key not in passed_parameters'", fo.loc())
+    rule_kwargs_and_readers(ctx)
+
+
+def rule_kwargs_and_readers(ctx):
+    # explicit keyword options are passed by definition - whatever their value
+    R = "KWARGS-PASSED"
+    ctx.rule(R, "every keyword argument received through **kwargs counts as passed: _passed_runpp_parameters merges the kwargs "
+                "dictionary itself (no filtering by value, e.g. `is not None`)")
+    fi = ctx.repo.func(f"{RUN}:_passed_runpp_parameters")
+    ups = [c for c in ast.walk(fi.node) if isinstance(c, ast.Call) and isinstance(c.func, ast.Attribute) and c.func.attr == "update"
+           and c.args and "kwargs" in ast.unparse(c.args[0])]
+    if not ups:
+        ctx.fail("_passed_runpp_parameters: merge of the kwargs parameters not found")
+    for c in ups:
+        a = c.args[0]
+        filtered = any(isinstance(n, ast.comprehension) and n.ifs for n in ast.walk(a)) or isinstance(a, (ast.DictComp,)) and any(g.ifs for g in a.generators)
+        ctx.ob(R, f"{RUN}::_passed_runpp_parameters::kwargs-merge", not filtered,
+               "all keyword options are merged into the passed parameters" if not filtered else
+               f"`{ast.unparse(c)[:90]}` drops keyword options by their value: an option passed explicitly with that value (e.g. None) "
+               "is overruled by the stored option", fi.loc(c))
+    # who may read the stored options on the runpp path
+    R2 = "STORED-READERS"
+    ctx.rule(R2, "on the power-flow entry path net.user_pf_options is read only by _passed_runpp_parameters (is anything stored?) and by "
+                 "the option initialisers that filter it with the passed parameters; runpp itself and the solvers never read it - a "
+                 "direct read bypasses the priority of explicit arguments")
+    allowed = {f"{RUN}:set_user_pf_options", f"{RUN}:_passed_runpp_parameters", "pandapower.auxiliary:_init_runpp_options",
+               "pandapower.pf.runpp_3ph:runpp_3ph"}
+    n = 0
+    for mn in ("pandapower.run", "pandapower.auxiliary", "pandapower.powerflow", "pandapower.pd2ppc", "pandapower.pf.runpp_3ph",
+               "pandapower.pf.run_newton_raphson_pf", "pandapower.optimal_powerflow"):
+        for f in ctx.repo.module(mn).functions.values():
+            reads = [x for x in ast.walk(f.node) if (isinstance(x, ast.Attribute) and x.attr == "user_pf_options") or
+                     (isinstance(x, ast.Constant) and x.value == "user_pf_options")]
+            if not reads:
+                continue
+            n += 1
+            ok = f.fq in allowed
+            ctx.ob(R2, f"{f.module.name}::{f.qualname}::reads-user_pf_options", ok,
+                   "reads the stored options through the priority filter" if ok else
+                   f"{f.qualname} reads net.user_pf_options directly: the stored value wins over an explicitly passed argument", f.loc(reads[0]))
+    if n < 3:
+        ctx.fail(f"STORED-READERS: only {n} readers of user_pf_options found")
 
 
 def variants(repo):
     a = "pandapower/auxiliary.py"
     V = Variant
     return [
+        V("None-valued keyword options not counted as passed", "pandapower/run.py", in_function("_passed_runpp_parameters", replace_once("passed_parameters.update(kwargs_parameters)", "passed_parameters.update({key: val for key, val in kwargs_parameters.items() if val is not None})")), "KWARGS-PASSED"),
+        V("recycle shortcut reads the stored options", "pandapower/run.py", in_function("runpp", replace_once('    if isinstance(kwargs.get("recycle", None), dict) and _internal_stored(net):', '    recycle = net.get("user_pf_options", {}).get("recycle", kwargs.get("recycle", None))\n    if isinstance(recycle, dict) and _internal_stored(net):')), "STORED-READERS"),
         V("init not re-read", a, in_function("_init_runpp_options", replace_once('    init = overrule_options.get("init", init)\n', '')), "REREAD"),
         V("stored options win", a, in_function("_init_runpp_options", replace_once("if key not in passed_parameters.keys()}", "if key in passed_parameters.keys() or True}")), "PRIORITY"),
     ]
